@@ -168,3 +168,12 @@ package bitswap
 //@   nopanic
 //@   ensures err == nil ==> has(specRegistry, cidCodec(cid)) && cidVersion(cid) == 1 && cidMhType(cid) == specRegistry[cidCodec(cid)].mhCode
 //@   ensures err == nil ==> len(result0) == specRegistry[cidCodec(cid)].idSize && result0 == cidHash(cid)[4:]
+
+// ---------------------------------------------------------------------------------------------
+// C06 / C10: the fetch loop itself. Whatever bytes arrive for a wanted CID - also for a CID that is being
+// fetched twice at the same time, where the block is decoded here and not in the hasher - the fetch
+// ends with a result or an error: it does not panic.
+//@ func fetch
+//@   property C06 C10
+//@   noframe
+//@   nopanic
